@@ -72,6 +72,14 @@ def gen_cases(tier, seed):
             cases.append({"shells": shells, "points": pts, "charges": q,
                           "classes": classes + qc + ["l:%d,%d" % (la, lb), "nsh:%d" % nsh, "nq:%d" % len(q)],
                           "cost": len(q) ** 0.5 * sum((2 + a + b) ** 3 * len(x["e"]) * len(y["e"]) for x, a in zip(shells, ls) for y, b in zip(shells, ls))})
+    # displaced copies: nearly coincident centres, also far from the origin
+    for (la, lb) in itertools.product(range(4), repeat=2):
+        for rep in range(2 if tier == "quick" else 8):
+            rng = bases.rng_for("C03", seed, tier, "displaced", la, lb, rep)
+            shells, classes = bases.displaced_pair(rng, la, lb)
+            c0 = np.array(shells[0]["c"])
+            pts = [[float(v) for v in c0 + rng.normal(size=3) * 0.7], [float(v) for v in c0], [float(v) for v in c0 + rng.normal(size=3) * 3.0]]
+            cases.append({"shells": shells, "points": pts, "charges": [1.0, -2.0, 0.7], "classes": classes + ["q:generic", "q:center", "l:%d,%d" % (la, lb), "nsh:2", "nq:3"], "cost": 40})
     # screening-window sweep: high-l pairs at separations where exp(-mu R^2) runs through 1e-9 .. 1e-17
     for (la, lb) in itertools.product((4, 5) if tier == "quick" else (3, 4, 5), repeat=2):
         for t in range(20, 40, 2):
